@@ -25,7 +25,7 @@ KindDef(node, xs) ==
       [] node.k = "Constant"      -> RQ(ParamQ(node.v))
       [] node.k = "GTE"           -> GTE_Def(ParamQ(node.v), xs)
       [] node.k = "LTE"           -> LTE_Def(ParamQ(node.v), xs)
-      [] node.k = "Tanh"          -> Tanh_Def(xs)
+      [] node.k \in {"Tanh", "RefTanh"} -> Tanh_Def(xs)
       [] node.k = "Drawdown"      -> Drawdown_Def(xs)
       [] node.k = "LnReturn"      -> LnReturn_Def(xs)
       [] node.k = "WelfordRolling" -> WelfordRolling_Def(xs)
